@@ -43,6 +43,21 @@ type srv struct {
 	w    int
 }
 
+// nameScheme decides how the servers of the pool being generated are called: plain lower-case
+// hosts, hosts with upper-case letters, or ONE host with a path per server (what identifies a
+// server is scheme, host and path as written).
+var nameScheme int
+
+func serverName(i int) string {
+	switch nameScheme {
+	case 1:
+		return fmt.Sprintf("http://Backend-%d.Example", i)
+	case 2:
+		return fmt.Sprintf("http://shared-host:8080/v%d", i)
+	}
+	return fmt.Sprintf("http://s%d", i)
+}
+
 // poolScale is a factor common to every weight of the pool being generated (1 for most
 // pools): very large weights whose greatest common divisor is itself huge.
 var poolScale = 1
@@ -89,6 +104,7 @@ func buildPool(t *rapid.T, next http.Handler, maxW int, opts ...roundrobin.LBOpt
 		return -1
 	}
 	poolScale = 1
+	nameScheme = rapid.SampledFrom([]int{0, 0, 1, 2}).Draw(t, "serverNames")
 	// the package-level default weight (what a new server added with weight 0 gets)
 	defaultW := 1
 	if maxW > 64 && rapid.IntRange(0, 7).Draw(t, "defaultWeight") == 0 {
@@ -115,7 +131,7 @@ func buildPool(t *rapid.T, next http.Handler, maxW int, opts ...roundrobin.LBOpt
 			live[rapid.IntRange(0, nBig-1).Draw(t, "livePos")] = rapid.IntRange(1, 5).Draw(t, "liveWeight")
 		}
 		for i := 0; i < nBig; i++ {
-			name := fmt.Sprintf("http://s%d", i)
+			name := serverName(i)
 			if err := rr.UpsertServer(mustURL(name), roundrobin.Weight(1)); err != nil {
 				t.Fatalf("upsert: %v", err)
 			}
@@ -128,7 +144,7 @@ func buildPool(t *rapid.T, next http.Handler, maxW int, opts ...roundrobin.LBOpt
 		nInit = 0
 	}
 	for i := 0; i < nInit; i++ {
-		name := fmt.Sprintf("http://s%d", i)
+		name := serverName(i)
 		w := genWeight(t, maxW)
 		if err := rr.UpsertServer(mustURL(name), roundrobin.Weight(w)); err != nil {
 			t.Fatalf("upsert: %v", err)
@@ -147,7 +163,7 @@ func buildPool(t *rapid.T, next http.Handler, maxW int, opts ...roundrobin.LBOpt
 			_, _ = rr.NextServer()
 		}
 		i := rapid.IntRange(0, 7).Draw(t, "hsrv")
-		name := fmt.Sprintf("http://s%d", i)
+		name := serverName(i)
 		idx := find(name)
 		hop := rapid.IntRange(0, 3).Draw(t, "hop")
 		if hop == 3 { // drain every member to weight 0, try a few selections, maybe re-enable one
@@ -285,7 +301,7 @@ func TestC01_Windows(t *testing.T) {
 		var lastSeen string
 		var nSeen int
 		next := http.HandlerFunc(func(w http.ResponseWriter, r *http.Request) {
-			lastSeen = r.URL.Scheme + "://" + r.URL.Host
+			lastSeen = r.URL.Scheme + "://" + r.URL.Host + r.URL.Path
 			nSeen++
 		})
 		// a share of the balancers has sticky sessions switched on and every request carries an
@@ -295,7 +311,7 @@ func TestC01_Windows(t *testing.T) {
 		var opts []roundrobin.LBOption
 		if rapid.IntRange(0, 3).Draw(t, "sticky") == 0 {
 			opts = append(opts, roundrobin.EnableStickySession(roundrobin.NewStickySession("sid")))
-			badCookie = rapid.SampledFrom([]string{"sid=http://a.example:8080%zz", "sid=http://not-a-member", "sid=", "sid=%%%"}).Draw(t, "badCookie")
+			badCookie = rapid.SampledFrom([]string{"sid=http://a.example:8080%zz", "sid=http://not-a-member", "sid=", "sid=%%%", "sid=http://backend-0.example", "sid=http://shared-host:8080"}).Draw(t, "badCookie")
 		}
 		rr, model, log, hist := buildPool(t, next, maxWeight(), opts...)
 		viaHTTP := rapid.Bool().Draw(t, "viaServeHTTP") || badCookie != ""
@@ -361,7 +377,7 @@ func TestC01_Windows(t *testing.T) {
 			if err != nil {
 				return "", false
 			}
-			return u.Scheme + "://" + u.Host, true
+			return u.Scheme + "://" + u.Host + u.Path, true
 		}
 		sig := fmt.Sprintf("%v|%v|%s", model, viaHTTP, strings.Join(log, " "))
 		if sum == 0 { // empty or all-zero pool
@@ -514,7 +530,7 @@ func TestC01_Concurrent(t *testing.T) {
 		counts := map[string]int{}
 		next := http.HandlerFunc(func(w http.ResponseWriter, r *http.Request) {
 			mu.Lock()
-			counts[r.URL.Scheme+"://"+r.URL.Host]++
+			counts[r.URL.Scheme+"://"+r.URL.Host+r.URL.Path]++
 			mu.Unlock()
 		})
 		rr, model, log, _ := buildPool(t, next, 64)
@@ -564,7 +580,7 @@ func TestC01_Concurrent(t *testing.T) {
 						errs <- err.Error()
 						return
 					}
-					local[u.Scheme+"://"+u.Host]++
+					local[u.Scheme+"://"+u.Host+u.Path]++
 				}
 				mu.Lock()
 				for k, v := range local {
